@@ -44,6 +44,7 @@ class Env:
         self._real_numpy = pp.numpy
         self._orig_helpers = (pp.Unit.__dict__['get_human_readable_unit'],
                               pp.Unit.__dict__['convert_from_storage_to_standard_format'])
+        self._orig_noise = pp.Recipe.__dict__.get('_rounding_noise')
         self._shim = npshim.Shim()
         self.symbolic = False
 
@@ -73,13 +74,23 @@ class Env:
                 pp.Unit.convert_from_storage_to_standard_format = staticmethod(_stub_standard_format)
             else:
                 pp.Unit.get_human_readable_unit, pp.Unit.convert_from_storage_to_standard_format = self._orig_helpers
+            # the library's own bound on rounding noise (tolerance of get_substance_used's net-decrease test) is 0 in the
+            # real-number model, where roundings at internal precision are the identity; native runs use the real one
+            if self._orig_noise is not None:
+                pp.Recipe._rounding_noise = staticmethod(_stub_rounding_noise)
         else:
+            if self._orig_noise is not None:
+                pp.Recipe._rounding_noise = self._orig_noise
             if 'float' in pp.__dict__:
                 del pp.float
             pp.numpy = pp.np = self._real_numpy
             pp.Unit.get_human_readable_unit, pp.Unit.convert_from_storage_to_standard_format = self._orig_helpers
         self.symbolic = on
         self.clear_caches()
+
+
+def _stub_rounding_noise(total, terms):
+    return 0
 
 
 def _stub_human_readable(value, unit):
